@@ -989,16 +989,23 @@ def p_sort(I, n, pos, kw):
             return I.unknown("sorted-reverse-not-constant", n)
         from .values import bucket_handle
         return bucket_handle(v.attrs["base"], v.attrs["index"], order)
+    rv = kw.get("reverse") if tgt == "builtins.sorted" else None
+    if rv is None or isinstance(rv, NoneV) or (isinstance(rv, Sc) and rv.e == sym.FALSE):
+        dirn = "asc"
+    elif isinstance(rv, Sc) and rv.e == sym.TRUE:
+        dirn = "desc"
+    else:
+        dirn = None
     if isinstance(v, Bag):
-        return Bag(v.elem, v.size, True, v.src, v.parts)
+        return Bag(v.elem, v.size, True, v.src, v.parts, dirn)
     if isinstance(v, Concat):
         sz = p_len(I, n, [v], {}).e
-        return Bag(generic_elem(v), sz, True, None, v.parts)
+        return Bag(generic_elem(v), sz, True, None, v.parts, dirn)
     a = arrays.to_arr(v) if not isinstance(v, Arr) else v
     if isinstance(a, Arr) and a.ndim == 1:
-        return Bag(a.elem, a.axes[0][0].size, True, a.uid, [a])
+        return Bag(a.elem, a.axes[0][0].size, True, a.uid, [a], dirn)
     if isinstance(v, Seq):
-        return Bag(generic_elem(v), sym.Num(len(v.items)), True, None)
+        return Bag(generic_elem(v), sym.Num(len(v.items)), True, None, None, dirn)
     return I.unknown("sort", n, (generic_elem(v),))
 
 
